@@ -25,6 +25,11 @@ def main(argv):
         import pmutt.io.cantera  # noqa: F401
         import pmutt.io.thermdat  # noqa: F401
         import pmutt.empirical.nasa  # noqa: F401
+        import pmutt.mixture.cov  # noqa: F401
+        import pmutt.io.chemkin  # noqa: F401
+        import pmutt.io.omkm  # noqa: F401
+        import pmutt.omkm.reaction  # noqa: F401
+        import pmutt.io.json  # noqa: F401
     from hypothesis import HealthCheck, given, settings
     from vf import core, run
     mod = run.load(pid)
